@@ -3,6 +3,7 @@ package main
 import (
 	"go/types"
 	"strings"
+	"sync"
 
 	"golang.org/x/tools/go/ssa"
 )
@@ -23,7 +24,13 @@ func isStackType(t types.Type) bool {
 	return ok && n.Obj().Name() == "Stack" && n.Obj().Pkg() != nil && strings.HasSuffix(n.Obj().Pkg().Path(), "/funcGen")
 }
 
+var stackNeedMu sync.Mutex
+
 func (L *Loaded) stackNeedOf(fn *ssa.Function, paramIdx int, depth int) stackNeed {
+	if depth == 0 {
+		stackNeedMu.Lock()
+		defer stackNeedMu.Unlock()
+	}
 	key := stackNeedKey{fn, paramIdx}
 	if r, ok := L.stackNeeds[key]; ok {
 		return r
